@@ -21,8 +21,16 @@ Steps (one per critical section / unlocked region):
                     `async`: first locked take)
 * `start d`       — `job()` is entered       (log `s j`)
 * `finish d p`    — `job()` returns, or panics into the recover wrapper when `p` (log `e j`)
-* `next d`        — lock; take the next job or reset the list and return; unlock
-* `close`         — `closed = true` (under the mutex, in `closeWithError`) -/
+* `next d big`    — lock; take the next job or reset the list and return; unlock
+* `close`         — `closed = true` (under the mutex, in `closeWithError`)
+
+The reset is modelled branch by branch (`resetList`): `Conn.execute` reslices `jobList[0:0]`;
+`Timer.Async` reslices `asyncList[0:0]` unless the backing array has grown past 1024 entries, in
+which case it installs `make([]func(), 0, 8)`.  Whether the capacity exceeds 1024 depends on Go's
+append growth and is an **input** (`big`) of the steps that can reset.  Both branches leave a list of
+length 0 (`resetList_nil`) — this is what the head detection of the next submitter relies on, and what
+the correspondence run compares (`len(asyncList)` / `len(jobList)` after every op, including after a
+backlog of more than 1024 entries has drained). -/
 namespace ExecQ
 
 inductive Kind | conn | async
@@ -53,16 +61,31 @@ structure St where
 
 inductive Act
   | submit (j : Nat) (must : Bool)
-  | spawn (d : Nat)
+  | spawn (d : Nat) (big : Bool)
   | start (d : Nat)
   | finish (d : Nat) (panic : Bool)
-  | next (d : Nat)
+  | next (d : Nat) (big : Bool)
   | close
   deriving Repr
 
+/-- Go `make([]func(), len, cap)`: a slice of `len` nil entries (0 stands for nil) -/
+def makeList (len _cap : Nat) : List Nat := List.replicate len 0
+
+/-- the list installed when the drainer has consumed everything:
+    `Conn.execute`: `c.jobList = c.jobList[0:0]`;
+    `Timer.Async`:  `if cap(t.asyncList) > 1024 { t.asyncList = make([]func(), 0, 8) } else { t.asyncList = t.asyncList[0:0] }` -/
+def resetList (k : Kind) (big : Bool) (l : List Nat) : List Nat :=
+  match k with
+  | .conn => l.take 0
+  | .async => if big then makeList 0 8 else l.take 0
+
+/-- whichever branch runs, the list is empty afterwards -/
+theorem resetList_nil (k : Kind) (big : Bool) (l : List Nat) : resetList k big l = [] := by
+  cases k <;> simp [resetList, makeList]
+
 /-- the locked paragraph "`if len == i { reset; return }; job = list[i]`" of closure `d` -/
-def take (s : St) (d : Nat) (x : Drainer) : St :=
-  if s.list.length == x.taken then { s with list := [], drs := s.drs.eraseIdx d }
+def take (k : Kind) (big : Bool) (s : St) (d : Nat) (x : Drainer) : St :=
+  if s.list.length == x.taken then { s with list := resetList k big s.list, drs := s.drs.eraseIdx d }
   else match s.list[x.taken]? with
     | some j => { s with drs := s.drs.set d { taken := x.taken + 1, job := j, ph := .ready } }
     | none => { s with crash := true }
@@ -78,13 +101,13 @@ def step (k : Kind) (s : St) : Act → Option St
           | .conn => { taken := 1, job := j, ph := .spawned }
           | .async => { taken := 0, job := j, ph := .spawned }] }
       else some s'
-  | .spawn d =>
+  | .spawn d big =>
     match s.drs[d]? with
     | some x =>
       if x.ph == .spawned then
         match k with
         | .conn => some { s with drs := s.drs.set d { x with ph := .ready } }
-        | .async => some (take s d x)
+        | .async => some (take k big s d x)
       else none
     | none => none
   | .start d =>
@@ -101,9 +124,9 @@ def step (k : Kind) (s : St) : Act → Option St
                       done := s.done ++ [x.job], panics := if p then s.panics + 1 else s.panics }
       else none
     | none => none
-  | .next d =>
+  | .next d big =>
     match s.drs[d]? with
-    | some x => if x.ph == .finished then some (take s d x) else none
+    | some x => if x.ph == .finished then some (take k big s d x) else none
     | none => none
   | .close => if k == .conn then some { s with closed := true } else none
 
